@@ -3,10 +3,11 @@
 directory (never /repo itself), apply the patch, run every claimed property's check on it, record which report a VIOLATION.
 Writes seeded/matrix.json and refreshes `caught_by` / `rules` in each meta.json.   usage: seed_matrix.py [label ...]"""
 import json, os, re, shutil, subprocess, sys, tempfile
-from concurrent.futures import ThreadPoolExecutor
+from concurrent.futures import ProcessPoolExecutor
 
 VERIF = os.path.dirname( os.path.dirname( os.path.abspath( __file__ )))
 SEEDED = os.path.join( VERIF, 'seeded' )
+HEADDIR = os.environ.get( 'SM_HEADDIR' )
 
 
 def sh( cmd, cwd=None ):
@@ -15,32 +16,45 @@ def sh( cmd, cwd=None ):
 
 
 def one( label ):
-    d = os.path.join( SEEDED, label )
-    tmp = tempfile.mkdtemp( prefix='sm_%s_' % label, dir='/tmp' )
+    """all rules once on /repo's HEAD text with the patch applied in memory ( sa.seedreplay ), then grouped by property"""
+    sys.path.insert( 0, VERIF )
+    from sa import cli, seedreplay, core
+    from sa.core import Ctx
+    props = cli.load_rules()
     try:
-        rc, out = sh( 'git -C /repo archive HEAD | tar -x -C %s' % tmp )
-        rc, out = sh( 'patch -p1 -s --no-backup-if-mismatch < %s' % os.path.join( d, 'patch.diff' ), cwd=tmp )
-        if rc:
-            return label, dict( error='patch does not apply to /repo HEAD: ' + out[-200:] )
-        props = [ c['property_id'] for c in json.load( open( os.path.join( VERIF, 'MANIFEST.json' )))['checks'] ]
-        fired = {}
-        for pid in props:
-            rc2, out2 = sh( [ 'python3-vt', '-B', '-m', 'sa', 'check', pid, '--root', tmp, '--no-write' ], cwd=VERIF )
-            if rc2 == 1:
-                rules = sorted( set( re.findall( r': ([A-Z]-?[A-Z0-9-]+): ', out2 )))
-                fired[pid] = dict( rules=rules, lines=[ l.strip()[:260] for l in out2.splitlines() if l.startswith( '  ' ) and re.search( r': [A-Z]-?[A-Z0-9-]+: ', l ) ][:3] )
-            elif rc2 != 0:
-                fired[pid] = dict( rules=[], lines=[ 'ANALYSIS-ERROR (rc=%d)' % rc2 ] + [ l[:200] for l in out2.splitlines() if 'ANALYSIS-ERROR' in l ][:2], undecided=True )
-        return label, dict( fired=fired )
-    finally:
-        shutil.rmtree( tmp, ignore_errors=True )
+        ov = seedreplay.overrides_for( os.path.join( SEEDED, label, 'patch.diff' ), HEADDIR )
+    except seedreplay.DoesNotApply as exc:
+        return label, dict( error='patch does not apply to /repo HEAD: %s' % exc )
+    ctx = Ctx( HEADDIR, 'quick', overrides=ov )
+    rule_ids = sorted( { r for spec in props.PROPS.values() for r in spec['rules'] } )
+    results, errors = cli.run_rules( ctx, rule_ids )
+    known, _ = cli.load_known()
+    bad = { e.split( ':' )[0] for e in errors }
+    fired = {}
+    for pid, spec in sorted( props.PROPS.items() ):
+        rules, lines = [], []
+        for rid in spec['rules']:
+            res = results.get( rid )
+            fs = [ f for f in ( res.findings if res else [] ) if f.key not in known ]
+            if fs:
+                rules.append( rid )
+                lines.extend( f.human().strip()[:260] for f in fs[:1] )
+        if rules:
+            fired[pid] = dict( rules=sorted( rules ), lines=lines[:3] )
+        elif any( rid in bad for rid in spec['rules'] ):
+            fired[pid] = dict( rules=[], lines=[ 'ANALYSIS-ERROR' ] + [ e[:200] for e in errors if e.split( ':' )[0] in spec['rules'] ][:2], undecided=True )
+    return label, dict( fired=fired )
 
 
 def main():
     labels = sys.argv[1:] or sorted( l for l in os.listdir( SEEDED ) if os.path.isdir( os.path.join( SEEDED, l )))
     head = sh( 'git -C /repo rev-parse --short HEAD' )[1].strip()
     matrix = dict( repo_head=head, seeds={} )
-    with ThreadPoolExecutor( max_workers=8 ) as ex:
+    global HEADDIR
+    HEADDIR = tempfile.mkdtemp( prefix='sm_head_', dir='/tmp' )
+    sh( 'git -C /repo archive HEAD | tar -x -C %s' % HEADDIR )
+    os.environ['SM_HEADDIR'] = HEADDIR
+    with ProcessPoolExecutor( max_workers=16 ) as ex:
         for label, r in ex.map( one, labels ):
             matrix['seeds'][label] = r
             mp = os.path.join( SEEDED, label, 'meta.json' )
@@ -56,7 +70,9 @@ def main():
             json.dump( meta, open( mp, 'w' ), indent=1 )
             f = r.get( 'fired', {} )
             print( '%-8s own=%-3s %s' % ( label, 'yes' if own in f and not f[own].get( 'undecided' ) else 'NO', { p: v['rules'] for p, v in f.items() } if f else r ))
-    json.dump( matrix, open( os.path.join( SEEDED, 'matrix.json' ), 'w' ), indent=1 )
+    shutil.rmtree( HEADDIR, ignore_errors=True )
+    if not sys.argv[1:]:
+        json.dump( matrix, open( os.path.join( SEEDED, 'matrix.json' ), 'w' ), indent=1 )
 
 
 if __name__ == '__main__':
